@@ -161,6 +161,7 @@ func RunTimedWorld(r sim.Src, mons []*sim.Mon, keepLog bool, sh TimedShape) *sim
 		// new transactions reach the pools one by one within a latency (2/3), and one may land in a pool while its
 		// owner is registering the subscription (1/2: 25% per subscription)
 		o.TxJitter = r.Intn("txjitter", 3) != 0
+		o.TxAvoidGap, o.TxAvoidWin = 2*tpb, 4*o.MaxLat
 		if r.Intn("landonsub", 2) == 0 {
 			o.LandOnSubscribePct = 25
 		}
